@@ -556,6 +556,7 @@ def oracle_crosscheck(rep, diag, jobs, results):
         return ["oracle-c07 was not built"], 0
     pat = re.compile(r"^%meta cpdef (\S+) fragcollapse:(\S+)$")
     orders = []
+    owner = []
     for job in jobs:
         if job["tool"] != "neuralbond":
             continue
@@ -575,6 +576,7 @@ def oracle_crosscheck(rep, diag, jobs, results):
             tail.reverse()
             if tail:
                 orders.append(tail)
+                owner.append(job["id"])
     stdin = "".join("PERM " + ",".join(n for n, _ in o) + "\n" for o in orders)
     rc, so, se = vlib.run([_oracle()], input_bytes=stdin.encode(), timeout=120)
     if rc != 0:
@@ -592,8 +594,10 @@ def oracle_crosscheck(rep, diag, jobs, results):
     if len(sorts) != len(orders) or len(cpdefs) != len(orders):
         problems.append("oracle answered %d/%d PERM lines" % (len(sorts), len(orders)))
     else:
-        if len(set(sorts)) > 1:
-            problems.append("neuralbond runs walked different key sets: " + " / ".join(sorted(set(sorts))[:2])[:300])
+        for jid in sorted(set(owner)):
+            mine = {x for x, o in zip(sorts, owner) if o == jid}
+            if len(mine) > 1:
+                problems.append("neuralbond runs of one job walked different key sets: " + " / ".join(sorted(mine)[:2])[:300])
         for o, c in zip(orders, cpdefs):
             if c != "|".join(l for _, l in o):
                 problems.append("model cpdefLines differs from neuralbond's emitted lines for order " + ",".join(n for n, _ in o)[:200])
